@@ -247,14 +247,32 @@ def make_call_objects(opts):
     return strategy, doc_sync, exclude
 
 
-def do_call(desc, root, ids_s, ids_d, opts):
+def prime_call(desc, root, opts):
+    """desc['prime'] = [src state point, dst state point]: the caller's own ByKey() instance is first used for a
+    sync_jobs call on that (conflicting) pair; the same instance then serves the observed call.  Returns the
+    call objects and the exception class of the priming call."""
+    import signac
+    from signac.sync import sync_jobs
+
+    objs = make_call_objects(opts)
+    src = signac.get_project(os.path.join(root, "src"))
+    dst = signac.get_project(os.path.join(root, "dst"))
+    ssp, dsp = desc["prime"]
+    try:
+        sync_jobs(src=src.open_job(ssp), dst=dst.open_job(dsp), doc_sync=objs[1], strategy=objs[0])
+        return objs, None
+    except Exception as e:       # noqa: BLE001
+        return objs, exn_name(e)
+
+
+def do_call(desc, root, ids_s, ids_d, opts, objs=None):
     """Run the real call with fresh handles; returns the exception class name or None."""
     import signac
 
     filecmp.clear_cache()
     src = signac.get_project(os.path.join(root, "src"))
     dst = signac.get_project(os.path.join(root, "dst"))
-    strategy, doc_sync, exclude = make_call_objects(opts)
+    strategy, doc_sync, exclude = objs if objs is not None else make_call_objects(opts)
     entry = desc["entry"]
     buf = io.StringIO()
     with contextlib.redirect_stdout(buf):      # a dry run prints the relative path of every file it would copy
@@ -357,8 +375,11 @@ def run_scenario(desc, prop):
 
         order_s = [j.id for j in signac.get_project(os.path.join(main, "src"))]
         order_d = [j.id for j in signac.get_project(os.path.join(main, "dst"))]
+        objs, primed = None, None
+        if desc.get("prime"):
+            objs, primed = prime_call(desc, main, opts)       # before the "before" snapshot
         s0, d0, ok0 = observe(main, order_s, order_d)
-        exn1 = do_call(desc, main, ids_s, ids_d, opts)
+        exn1 = do_call(desc, main, ids_s, ids_d, opts, objs)
         s1, d1, ok1 = observe(main, order_s, order_d)
         rest1 = ok0 and ok1 and s0["rest"] == s1["rest"] and d0["rest"] == d1["rest"]
         again = None
@@ -375,6 +396,8 @@ def run_scenario(desc, prop):
         if ref_opts is not None:
             rdir = os.path.join(root, "ref")
             build_pair(desc, rdir)
+            if desc.get("prime"):
+                prime_call(desc, rdir, ref_opts)              # same history; the companion call uses a fresh instance
             rs0, rd0, rok0 = observe(rdir, order_s, order_d)
             same_pre = (strip_order(rs0) == strip_order(s0) and strip_order(rd0) == strip_order(d0))
             exnr = do_call(desc, rdir, ids_s, ids_d, ref_opts)
@@ -450,7 +473,7 @@ def run_scenario(desc, prop):
         coq_ftab(vals), inp, coq_obs(exn1, s1, d1, rest1),
         coq_opt(coq_obs(*again) if again else None), coq_opt(coq_obs(*ref) if ref else None))
     changed = strip_order(d1) != strip_order(d0)
-    obs = {"exception": exn1, "dst_changed": changed, "src_changed": strip_order(s1) != strip_order(s0),
+    obs = {"exception": exn1, "priming_call_exception": primed, "dst_changed": changed, "src_changed": strip_order(s1) != strip_order(s0),
            "dst_after": {"top": plain_tree(d1["top"]), "workspace": plain_tree(d1["ws"])},
            "repeat": None if again is None else {"exception": again[0], "dst_changed_again": strip_order(again[2]) != strip_order(d1)},
            "companion": None if ref is None else {"exception": ref[0], "dst_equal_to_main_run": strip_order(ref[2]) == strip_order(d1)}}
@@ -458,6 +481,8 @@ def run_scenario(desc, prop):
              "strategy=" + (s if isinstance(s, str) else ("None" if s is None else "custom")),
              "doc_sync=" + (dsy if isinstance(dsy, str) else ("default" if dsy is None else "ByKey:" + ("None" if dsy[1] is None else dsy[1][0]))),
              "outcome=" + (exn1 or ("changed" if changed else "no-change"))]
+    if desc.get("prime"):
+        kinds.append("ByKey-instance-reused-after-" + str(primed))
     for flag in ("recursive", "deep", "dry_run", "parallel"):
         if opts.get(flag):
             kinds.append(flag)
@@ -742,8 +767,8 @@ def shrink_neighbours(desc):
             continue
         seen.append(sp)
         d = json.loads(json.dumps(desc))
-        d["src"]["jobs"] = [j for j in d["src"]["jobs"] if j["sp"] == sp or (isinstance(d["entry"], list) and j["sp"] in d["entry"][1:])]
-        d["dst"]["jobs"] = [j for j in d["dst"]["jobs"] if j["sp"] == sp or (isinstance(d["entry"], list) and j["sp"] in d["entry"][1:])]
+        d["src"]["jobs"] = [j for j in d["src"]["jobs"] if j["sp"] == sp or (isinstance(d["entry"], list) and j["sp"] in d["entry"][1:]) or j["sp"] in d.get("prime", [])]
+        d["dst"]["jobs"] = [j for j in d["dst"]["jobs"] if j["sp"] == sp or (isinstance(d["entry"], list) and j["sp"] in d["entry"][1:]) or j["sp"] in d.get("prime", [])]
         if d["opts"].get("selection"):
             d["opts"]["selection"][1] = [x for x in d["opts"]["selection"][1] if x == sp]
         out.append(d)
@@ -871,4 +896,27 @@ def core_backup_cases(dries=(False,)):
                             if dry:
                                 opts["dry_run"] = True
                             out.append({"src": src, "dst": dst, "opts": opts, "entry": entry})
+    return out
+
+
+def core_reuse_cases(dries=(False,)):
+    """The caller reuses ONE ByKey() instance: first for a sync_jobs call on a conflicting pair (DocumentSyncConflict,
+    rolled back), then for the observed, conflict-free call (job level, or project level restricted to that job)."""
+    out = []
+    for ds in (None, ["bykey", None]):
+        for sdoc, ddoc in (({"k": 1, "n": 2}, {"k": 1}), ({"n": {"p": 1, "q": 2}}, {"n": {"p": 1}}), ({"k": 1}, None), ({"k": 1}, {"k": 1})):
+            for dry in dries:
+                for entry in (["Job.sync", {"a": 0}, {"a": 0}], ["sync_jobs", {"a": 0}, {"a": 0}], "Project.sync", "sync_projects"):
+                    sj = {"sp": {"a": 0}, "files": {"x": ["A", 1000]}, "dirs": [], "doc": sdoc}
+                    dj = {"sp": {"a": 0}, "files": {}, "dirs": []}
+                    if ddoc is not None:
+                        dj["doc"] = ddoc
+                    src = {"jobs": [sj, {"sp": {"a": 1}, "files": {}, "dirs": [], "doc": {"c": 1, "m": 5}}]}
+                    dst = {"jobs": [dj, {"sp": {"a": 1}, "files": {}, "dirs": [], "doc": {"c": 2}}]}
+                    opts = {"doc_sync": ds, "check_schema": False, "strategy": "always"}
+                    if dry:
+                        opts["dry_run"] = True
+                    if isinstance(entry, str):
+                        opts["selection"] = ["ids", [{"a": 0}]]
+                    out.append({"src": src, "dst": dst, "opts": opts, "entry": entry, "prime": [{"a": 1}, {"a": 1}]})
     return out
